@@ -83,6 +83,21 @@ class Ctxt:
                     raise Violation("candidate-form-changes-answer",
                                     f"candidate {c!r} {label}: index {alt!r}, for a detached candidate {answer!r}",
                                     {"rule": self.rn, "existing": list(e), "candidate": c})
+            # the existing children dressed in a namespace prefix (imported documents): order is a matter of names
+            for k in self.parent.children:
+                k.prefix = "x"
+                k.add_namespace("x", "http://example.org/extension")
+            try:
+                alt = rule.child_insert_index(self.parent, Node(c))
+            except Exception as ex:  # noqa
+                alt = "raised " + type(ex).__name__
+            for k in self.parent.children:
+                k.prefix = None
+                k.nsmap = {}
+            if alt != answer:
+                raise Violation("prefix-of-existing-children-changes-answer",
+                                f"candidate {c!r}: index {alt!r} when the existing children carry a prefix, {answer!r} when they do not",
+                                {"rule": self.rn, "existing": list(e), "candidate": c})
             return answer
         finally:
             # an ordinary editing session validates the parent between edits; whatever validation remembers about
